@@ -18,36 +18,32 @@ type placeResult struct {
 }
 
 func aclAllows(acl string, user string, groups []string) bool {
-	acl = strings.TrimSpace(acl)
-	if acl == "*" {
+	if strings.TrimSpace(acl) == "*" {
 		return true
 	}
 	if acl == "" {
 		return false
 	}
-	// "users groups": users separated by commas, a space, groups separated by commas
-	raw := strings.SplitN(strings.TrimLeft(acl, ""), " ", 2)
-	users := raw[0]
-	grps := ""
-	if len(raw) > 1 {
-		grps = raw[1]
+	// "users groups": users separated by commas, one space, groups separated by commas; either part may be empty
+	fields := strings.Split(acl, " ")
+	if len(fields) > 2 {
+		return false
 	}
-	if strings.HasPrefix(acl, " ") {
-		users, grps = "", strings.TrimSpace(acl)
-	}
-	for _, u := range strings.Split(users, ",") {
+	for _, u := range strings.Split(fields[0], ",") {
 		if u == "*" || (u != "" && u == user) {
 			return true
 		}
 	}
-	for _, g := range strings.Split(grps, ",") {
-		g = strings.TrimSpace(g)
-		if g == "*" {
+	if len(fields) == 2 {
+		grps := strings.Split(fields[1], ",")
+		if len(grps) == 1 && grps[0] == "*" {
 			return true
 		}
-		for _, ug := range groups {
-			if g != "" && g == ug {
-				return true
+		for _, g := range grps {
+			for _, ug := range groups {
+				if g != "" && g == ug {
+					return true
+				}
 			}
 		}
 	}
@@ -203,8 +199,12 @@ func (s *Sim) referencePlacement(a *MApp, tree *Snap) placeResult {
 		}
 		return placeResult{queue: q, rule: i}
 	}
+	// nothing matched: the default queue, under the same conditions as any rule result
 	if dq := tree.Queues["root.default"]; dq != nil {
-		return placeResult{queue: "root.default", rule: -1}
+		if dq.Leaf && dq.Status != "Draining" && s.submitAllowed("root.default", a.User, a.Groups) {
+			return placeResult{queue: "root.default", rule: -1}
+		}
+		return placeResult{reason: "no rule matched, default queue not usable"}
 	}
 	return placeResult{reason: "no rule matched"}
 }
